@@ -231,6 +231,13 @@ func runCheck(prop, tier string, seed uint64, replay string) int {
 		}
 		return 2
 	}
+	c.writeEventLog()
+	if os.Getenv("VERIF_NO_EVIDENCE") != "" {
+		if len(c.violations) > 0 {
+			return 1
+		}
+		return 0
+	}
 	if err := c.WriteEvidence(rule, assumptions, components(tier)); err != nil {
 		fmt.Fprintln(os.Stderr, "INFRASTRUCTURE: cannot write evidence:", err)
 		return 2
